@@ -27,7 +27,10 @@ static SchedPolicy draw_policy(Rng& rng, int nthreads) {
 static InvResult run_cli(bool yarac, const std::vector<std::string>& argv, uint64_t sched_seed, const SchedPolicy& pol, uint64_t dir_seed, int timeout_s = 120) {
   InvResult r;
   r.iso = sim_isolate([&] {
-    std::vector<const char*> av; for (auto& a : argv) av.push_back(a.c_str()); av.push_back(nullptr);
+    // like a real process's argument area: the strings are followed by more readable bytes (cli/args.c looks at
+    // arg[strlen(longest option name)] of every argument that starts with "--")
+    static std::vector<std::vector<char>> store; store.clear(); for (auto& a : argv) { std::vector<char> c(a.size() + 64, 0); memcpy(c.data(), a.data(), a.size()); store.push_back(c); }
+    std::vector<const char*> av; for (auto& c : store) av.push_back(c.data()); av.push_back(nullptr);
     g_cap = CliCapture(); g_cap.active = true; g_cap.scheduled = true; g_cap.dir_seed = dir_seed;
     sim_detheap_enable(); sim_detheap_reset();   // yara's heap addresses depend on this invocation only (they decide basic-block counts)
     sim_clock_reset();
@@ -58,10 +61,10 @@ static const char* RULESETS[] = {
   "rule t_alpha : tagA tagB { meta: author = \"x\" n = 3 ok = true strings: $a = \"alpha_text\" $b = /reg[0-9]+ex/ $w = \"widestr\" wide condition: any of them }\n"
   "rule t_xor : tagB { strings: $x = \"xorsecret\" xor(1-255) condition: $x }\n"
   "rule t_fib { strings: $f = /x(a{1,3}){1,400}y/ condition: $f }\nrule t_big { condition: ext_big > 4294967296 }\n"
-  "rule t_mz { condition: uint16(0) == 0x5a4d }\nrule t_ext { condition: ext_i == 7 }\nrule t_small : tagA { condition: filesize < 100 }\nprivate rule t_priv { condition: true }\nrule t_dep { condition: t_priv and filesize > 5 }\n",
-  "import \"pe\"\nimport \"elf\"\nglobal rule g_nonempty { condition: filesize > 0 }\n"
+  "rule t_mz { condition: uint16(0) == 0x5a4d }\nrule t_ext { condition: ext_i == 7 }\nrule t_modext { condition: hash == 7 and filesize > 20 }\nrule t_deep { strings: $m = \"reg7ex\" condition: $m and (1 + (1 + (1 + (1 + (1 + (1 + (1 + (1 + (1 + (1 + (1 + filesize))))))))))) > 11 }\nrule t_small : tagA { condition: filesize < 100 }\nprivate rule t_priv { condition: true }\nrule t_dep { condition: t_priv and filesize > 5 }\n",
+  "import \"pe\"\nimport \"elf\"\nimport \"console\"\nglobal rule g_nonempty { condition: filesize > 0 }\n"
   "rule m_pe : bin { condition: pe.number_of_sections > 0 }\nrule m_elf : bin { condition: elf.type == elf.ET_DYN or elf.type == elf.ET_EXEC }\n"
-  "rule m_many : text { strings: $a = \"ab\" $h = { 61 62 ?? 61 } condition: #a > 2 or $h }\nrule m_ext : text { condition: ext_i == 7 and ext_s contains \"ne\" and ext_big != 5 }\n",
+  "rule m_many : text { strings: $a = \"ab\" $h = { 61 62 ?? 61 } condition: #a > 2 or $h }\nrule m_ext : text { condition: ext_i == 7 and ext_s contains \"ne\" and ext_big != 5 }\nrule m_log : text { condition: console.log(\"size \", filesize) and filesize < 60 }\nrule m_modext : text { condition: hash == 7 and filesize < 40 }\nrule m_deep { condition: elf.number_of_sections > 0 and (1 + (1 + (1 + (1 + (1 + (1 + (1 + (1 + (1 + (1 + (1 + filesize))))))))))) > 11 }\n",
 };
 static const int NRULESETS = 2;
 
@@ -73,27 +76,48 @@ static std::vector<std::string> make_contents() {
   { std::string x = "\x22\x35\x28\x29\x3f\x39\x28\x3f\x2e"; c.push_back("pad " + x + " pad reg7ex"); }
   { std::string m; for (int i = 0; i < 60; i++) m += "ab"; c.push_back(m); }
   c.push_back("MZ not really a pe file"); c.push_back("tiny"); c.push_back("x" + std::string(3000, 'a') + "y"); c.push_back("..xaay.. xaaay"); c.push_back(std::string(5000, 'z') + "alpha_text"); c.push_back("abxa abya");
+  { std::string m; for (int i = 0; i < 150; i++) m += "ab"; c.push_back(m + " reg7ex"); }   // > YR_MAX_STRING_MATCHES (96 in this build) matches of m_many.$a: a warning, an error with --fail-on-warnings
   return c;
 }
 
-struct Tree { std::string root; std::vector<std::pair<std::string, int>> files; };   // (path, content id)
+struct Tree { std::string root; std::vector<std::pair<std::string, int>> files; std::vector<std::pair<std::string, int>> links; int skipped_links = 0; };   // (path, content id); links: symlinks to regular files
 static void mkdirs(const std::string& p) { std::string cmd; size_t pos = 0; while ((pos = p.find('/', pos + 1)) != std::string::npos) mkdir(p.substr(0, pos).c_str(), 0755); mkdir(p.c_str(), 0755); }
 static void rm_rf(const std::string& p) { std::string cmd = "rm -rf '" + p + "'"; if (system(cmd.c_str())) {} }
 
 static Tree make_tree(Rng& rng, const std::vector<std::string>& contents, const std::string& root, bool nested, int nfiles) {
   Tree t; t.root = root; rm_rf(root); mkdirs(root);
   std::vector<std::string> dirs{root};
-  if (nested) { int nd = (int) rng.range(1, 5); for (int i = 0; i < nd; i++) { std::string d = dirs[rng.below(dirs.size())] + "/d" + std::to_string(i); mkdirs(d); dirs.push_back(d); } }
+  if (nested) { int nd = (int) rng.range(1, 5); for (int i = 0; i < nd; i++) { std::string d = dirs[rng.below(dirs.size())] + (rng.chance(1, 6) ? "/..d" : rng.chance(1, 6) ? "/.d" : "/d") + std::to_string(i); mkdirs(d); dirs.push_back(d); } }
   for (int i = 0; i < nfiles; i++) {
     int cid = (int) rng.below(contents.size());
-    std::string name = (rng.chance(1, 25) ? "unreadable_" : "f") + std::to_string(i) + (rng.chance(1, 5) ? ".bin" : ".txt");
+    // names a directory walk must not lose: hidden files, names that merely start with "..", a space in the name
+    const char* pre = rng.chance(1, 25) ? "unreadable_" : rng.chance(1, 14) ? "..f" : rng.chance(1, 14) ? ".f" : rng.chance(1, 14) ? "f f" : "f";
+    std::string name = pre + std::to_string(i) + (rng.chance(1, 5) ? ".bin" : ".txt");
     std::string path = dirs[nested ? rng.below(dirs.size()) : 0] + "/" + name;
     write_file(path, contents[cid]); t.files.push_back({path, cid});
+  }
+  // symbolic links: to regular files of the tree (scanned under the link's path unless -N), to "." and ".." and to nowhere (never scanned)
+  int nl = rng.chance(1, 2) ? (int) rng.below(5) : 0;
+  for (int i = 0; i < nl && !t.files.empty(); i++) {
+    std::string dir = dirs[nested ? rng.below(dirs.size()) : 0]; std::string lp = dir + "/ln" + std::to_string(i) + ".txt";
+    int kind = (int) rng.below(6);
+    if (kind == 0) { if (symlink(".", lp.c_str()) == 0) t.skipped_links++; }
+    else if (kind == 1) { if (symlink("..", lp.c_str()) == 0) t.skipped_links++; }
+    else if (kind == 2) { if (symlink("no_such_target", lp.c_str()) == 0) t.skipped_links++; }
+    else {
+      auto& f = t.files[rng.below(t.files.size())]; if (f.first.find("unreadable") != std::string::npos) continue;
+      std::string target = f.first;
+      if (kind == 3) {   // relative target that starts with "..": ../<this directory>/<file>, the link sits next to the file
+        size_t sl = f.first.rfind('/'); std::string fdir = f.first.substr(0, sl), fname = f.first.substr(sl + 1); size_t s2 = fdir.rfind('/');
+        lp = fdir + "/lnrel" + std::to_string(i) + ".txt"; target = "../" + fdir.substr(s2 + 1) + "/" + fname;
+      }
+      if (symlink(target.c_str(), lp.c_str()) == 0) t.links.push_back({lp, f.second});
+    }
   }
   return t;
 }
 
-struct Opts { std::vector<std::string> flags; bool recursive = false, count = false, negate = false, limit = false; int threads = 1; bool ext_at_compile = false; int ruleset = 0; };
+struct Opts { std::vector<std::string> flags; bool recursive = false, count = false, negate = false, limit = false, nofollow = false; int threads = 1; bool ext_at_compile = false; int ruleset = 0; };
 static Opts draw_opts(Rng& rng) {
   Opts o; o.ruleset = (int) rng.below(NRULESETS);
   static const char* simple[] = {"-s", "-L", "-X", "-m", "-g", "-e", "-f", "-w"};
@@ -103,12 +127,16 @@ static Opts draw_opts(Rng& rng) {
   if (rng.chance(1, 8)) { o.flags.push_back("-t"); o.flags.push_back(o.ruleset == 0 ? "tagB" : "text"); }
   if (rng.chance(1, 8)) { o.flags.push_back("-i"); o.flags.push_back(o.ruleset == 0 ? "t_alpha" : "m_many"); }
   if (rng.chance(1, 12)) { o.flags.push_back("-l"); o.flags.push_back("1"); o.limit = true; }
+  if (rng.chance(1, 8)) o.flags.push_back("--fail-on-warnings");
+  if (rng.chance(1, 8)) { o.flags.push_back("-k"); o.flags.push_back("8"); }      // evaluation stack of 8 slots: t_deep / m_deep overflow it on the files where they get that far
+  if (rng.chance(1, 5)) { o.flags.push_back("-N"); o.nofollow = true; }
   o.recursive = rng.chance(1, 2);
   static const int ths[] = {1, 2, 3, 4, 8, 16, 32}; o.threads = ths[rng.below(7)];
   o.ext_at_compile = rng.chance(1, 2);
   return o;
 }
-static std::vector<std::string> ext_args() { return {"-d", "ext_i=7", "-d", "ext_s=needle", "-d", "ext_big=4294967396"}; }
+// `hash` is the name of a built-in module that the rule sets do not import
+static std::vector<std::string> ext_args() { return {"-d", "ext_i=7", "-d", "ext_s=needle", "-d", "ext_big=4294967396", "-d", "hash=7"}; }
 
 // records: a rule line and the string lines ("0x...") that follow it
 static std::multiset<std::string> records(const std::string& out, int* torn = nullptr) {
@@ -125,7 +153,7 @@ static std::multiset<std::string> lines(const std::string& s) { std::multiset<st
 static std::string replace_all(std::string s, const std::string& a, const std::string& b) { size_t p = 0; while ((p = s.find(a, p)) != std::string::npos) { s.replace(p, a.size(), b); p += b.size(); } return s; }
 
 struct RefKey { int ruleset; std::string flags; int cid; bool unreadable; bool operator<(const RefKey& o) const { return std::tie(ruleset, flags, cid, unreadable) < std::tie(o.ruleset, o.flags, o.cid, o.unreadable); } };
-struct Ref { std::string out, err; int rc; };
+struct Ref { std::string out, err; int rc; std::string single_diff; };
 static std::map<RefKey, Ref> g_refs;
 static int64_t g_ref_runs = 0;
 static const char* P0 = "@@PATH@@";
@@ -143,12 +171,25 @@ static const Ref& reference(const std::string& workdir, const Opts& o, const std
   SchedPolicy pol; pol.kind = 2; pol.switch_den[0] = 64; pol.bb_mean = 1000000; pol.max_steps = 50000000;
   InvResult r = run_cli(false, av, 1, pol, 1); g_ref_runs++;
   Ref ref; ref.out = replace_all(r.out, path, P0); ref.err = replace_all(r.err, path, P0); ref.rc = r.status == 0 ? r.rc : -100 - r.status;
+  // the literal per-file invocation of the property, `yara [options] RULES FILE` (main's own single-file path, no queue,
+  // no scanning thread): its records must be the ones of the list-of-one run, and it must fail exactly when it reports an error
+  {
+    std::vector<std::string> sv{"yara"}; for (auto& f : o.flags) sv.push_back(f); for (auto& e : ext_args()) sv.push_back(e); sv.push_back(rules_path); sv.push_back(path);
+    InvResult s1 = run_cli(false, sv, 1, pol, 1); g_ref_runs++;
+    std::string so = replace_all(s1.out, path, P0), se = replace_all(s1.err, path, P0);
+    if (s1.status != 0) ref.single_diff = "single-file invocation did not terminate normally (status " + std::to_string(s1.status) + ") " + s1.iso.err.substr(0, 300);
+    else if (o.count) { // `-c` prints "<path>: <n>" in list mode and "<n>" for a single file
+      std::string a = replace_all(ref.out, std::string(P0) + ": ", ""), b = so;
+      if (a != b && !(ref.rc != 0 || !ref.err.empty())) ref.single_diff = "count differs: list-of-one prints '" + ref.out.substr(0, 80) + "', single file prints '" + so.substr(0, 80) + "'"; }
+    else if (records(so) != records(ref.out)) ref.single_diff = "records differ: single file prints '" + so.substr(0, 160) + "', list-of-one prints '" + ref.out.substr(0, 160) + "'";
+    if (ref.single_diff.empty() && s1.status == 0) { bool err_printed = se.find("error") != std::string::npos; if ((s1.rc != 0) != err_printed) ref.single_diff = "exit status " + std::to_string(s1.rc) + " with stderr '" + se.substr(0, 160) + "'"; }
+  }
   return g_refs[k] = ref;
 }
 
 struct Verdict { std::string sig, klass, detail; };
 
-static Verdict judge(const InvResult& r, const std::multiset<std::string>& exp_records, const std::multiset<std::string>& exp_err, bool any_ref_error, const Opts& o, const std::string& what) {
+static Verdict judge(const InvResult& r, const std::multiset<std::string>& exp_records, const std::multiset<std::string>& exp_err, bool any_ref_error, const Opts& o, const std::string& what, const std::multiset<std::string>* exp_unlimited = nullptr) {
   Verdict v;
   std::string mode = o.limit ? "limit-option" : "plain";
   if (r.status == 3) { v.klass = "crash"; v.sig = "cli|" + what + "|crash|" + sim_crash_signature(r.iso); v.detail = r.iso.err.substr(0, 2500); return v; }
@@ -158,6 +199,10 @@ static Verdict judge(const InvResult& r, const std::multiset<std::string>& exp_r
   // without -a the deadline is ~11 days away: a wait that only ends by that timeout is a hang in real life
   if (r.timed > 0) { v.klass = "no-progress"; v.sig = "cli|" + what + "|terminates-only-by-timeout"; v.detail = std::to_string(r.timed) + " semaphore wait(s) ended only because simulated time was advanced to the scan deadline"; return v; }
   int torn = 0; std::multiset<std::string> got = records(r.out, &torn);
+  if (o.limit && exp_unlimited && !o.count) {
+    int ng = 0; std::string first; for (auto& x : got) if (exp_unlimited->count(x) < got.count(x)) { if (first.empty()) first = x.substr(0, 200); ng++; }
+    if (ng) { v.klass = "output-differs"; v.sig = "cli|" + what + "|limit-superset|records-not-printed-by-any-unlimited-per-file-scan"; v.detail = std::to_string(ng) + " record(s) printed under -l that the same file's scan without -l does not print, e.g. '" + first + "'"; return v; }
+  }
   if (got != exp_records) {
     std::string only_exp, only_got; int ne = 0, ng = 0;
     for (auto& x : exp_records) if (got.count(x) < exp_records.count(x)) { if (only_exp.empty()) only_exp = x.substr(0, 200); ne++; }
@@ -189,6 +234,9 @@ static void run_case(uint64_t seed, int64_t run, bool thorough, const std::vecto
   // files the walk will reach
   std::vector<std::pair<std::string, int>> reach;
   for (auto& f : tree.files) { bool top = f.first.find('/', tree.root.size() + 1) == std::string::npos; if (o.recursive || top || use_list) reach.push_back(f); }
+  // a scan list names paths directly (links are opened through); a directory walk skips links under -N
+  for (auto& f : tree.links) { bool top = f.first.find('/', tree.root.size() + 1) == std::string::npos; if (use_list || (!o.nofollow && (o.recursive || top))) reach.push_back(f); }
+  st.c["tree.symlinks_to_files"] += tree.links.size(); st.c["tree.symlinks_never_scanned"] += tree.skipped_links;
   // expectation from per-file references
   std::multiset<std::string> exp_rec, exp_err; bool ref_err = false;
   for (auto& f : reach) {
@@ -197,6 +245,14 @@ static void run_case(uint64_t seed, int64_t run, bool thorough, const std::vecto
     for (auto& x : records(replace_all(ref.out, P0, f.first))) exp_rec.insert(x);
     for (auto& x : lines(replace_all(ref.err, P0, f.first))) exp_err.insert(x);
     if (ref.rc != 0) ref_err = true;
+    if (!ref.single_diff.empty() && reported.insert("cli|single-file|differs-from-list-of-one").second) { st.c["viol.single-file"]++; J rp = J::obj(); rp.set("engine", "sim_cli"); rp.set("seed", (int64_t) seed); rp.set("run", run); rp.set("thorough", thorough); emit_violation("C18", "single-file", "cli|single-file|differs-from-list-of-one", "`yara " + join(o.flags) + "RULES FILE` against the same file scanned as a list of one: " + ref.single_diff, rp); }
+  }
+  // under -l the comparison above is a known finding (one process-wide counter); what must still hold is that nothing
+  // is printed that the file's own unlimited scan would not print
+  std::multiset<std::string> exp_unlimited;
+  if (o.limit) {
+    Opts u = o; u.limit = false; u.flags.clear(); for (size_t i = 0; i < o.flags.size(); i++) { if (o.flags[i] == "-l") { i++; continue; } u.flags.push_back(o.flags[i]); }
+    for (auto& f : reach) { bool unread = f.first.find("unreadable") != std::string::npos; const Ref& ref = reference(work, u, rules_path, f.second, unread, contents); for (auto& x : records(replace_all(ref.out, P0, f.first))) exp_unlimited.insert(x); }
   }
   std::vector<std::string> av{"yara", "-p", std::to_string(o.threads)}; for (auto& f : o.flags) av.push_back(f); for (auto& e : ext_args()) av.push_back(e);
   if (o.recursive && !use_list) av.push_back("-r");
@@ -212,11 +268,11 @@ static void run_case(uint64_t seed, int64_t run, bool thorough, const std::vecto
   if (r.switches) st.hash(r.hash);
   if (getenv("SIM_DUMP_HASHES")) { J h = J::obj(); h.set("t", "rh"); h.set("run", run); char b[64]; snprintf(b, sizeof b, "%016llx:%lld:%zu", (unsigned long long) r.hash, (long long) r.switches, r.out.size()); h.set("h", b); emit_line(h); }
   auto report = [&](const Verdict& v) { if (v.sig.empty()) return; st.c["viol." + v.klass]++; if (reported.insert(v.sig).second || replaying) { J rp = J::obj(); rp.set("engine", "sim_cli"); rp.set("seed", (int64_t) seed); rp.set("run", run); rp.set("thorough", thorough); emit_violation("C18", v.klass, v.sig, v.detail + " [yara " + join(av) + "; " + std::to_string(reach.size()) + " files, policy " + std::to_string(pol.kind) + ", " + std::to_string(r.switches) + " switches]", rp); } };
-  report(judge(r, exp_rec, exp_err, ref_err, o, use_list ? "scan-list" : "directory"));
+  report(judge(r, exp_rec, exp_err, ref_err, o, use_list ? "scan-list" : "directory", &exp_unlimited));
   // rules pre-compiled by yarac give the same output
   if (rng.chance(1, 3) && r.status == 0) {
     std::string yarc = work + "/rules.yarc"; unlink(yarc.c_str());
-    std::vector<std::string> cav{"yarac"}; if (o.ext_at_compile) for (auto& e : ext_args()) cav.push_back(e); else { cav.push_back("-d"); cav.push_back("ext_i=0"); cav.push_back("-d"); cav.push_back("ext_s=t_alpha"); cav.push_back("-d"); cav.push_back("ext_big=0"); }
+    std::vector<std::string> cav{"yarac"}; if (o.ext_at_compile) for (auto& e : ext_args()) cav.push_back(e); else { cav.push_back("-d"); cav.push_back("ext_i=0"); cav.push_back("-d"); cav.push_back("ext_s=t_alpha"); cav.push_back("-d"); cav.push_back("ext_big=0"); cav.push_back("-d"); cav.push_back("hash=0"); }
     cav.push_back(rules_path); cav.push_back(yarc);
     SchedPolicy p1; p1.kind = 2; p1.switch_den[0] = 64; p1.bb_mean = 1000000; p1.max_steps = 50000000;
     InvResult c = run_cli(true, cav, 1, p1, 1); st.c["cli_invocations"]++;
@@ -225,7 +281,7 @@ static void run_case(uint64_t seed, int64_t run, bool thorough, const std::vecto
       std::vector<std::string> av_c = av; av_c.push_back("-C"); av_c.push_back(yarc); av_c.push_back(target);
       InvResult rc2 = run_cli(false, av_c, sseed ^ 0x77, pol, dseed); st.c["cli_invocations"]++; st.c["compiled_rule_runs"]++;
       if (rc2.switches) st.hash(rc2.hash);
-      report(judge(rc2, exp_rec, exp_err, ref_err, o, "compiled-rules"));
+      report(judge(rc2, exp_rec, exp_err, ref_err, o, "compiled-rules", &exp_unlimited));
     }
   }
   if (st.samples.size() < 3) { J s = J::obj(); s.set("argv", join(av)); s.set("files", (int64_t) reach.size()); s.set("threads", o.threads); s.set("switches", r.switches); s.set("blocked_on_semaphore", r.blocked_sem); s.set("stdout_records", (int64_t) exp_rec.size()); st.sample(s); }
@@ -249,7 +305,8 @@ static void run_c17cli(uint64_t seed, int64_t run, bool thorough, Stats& st, std
   else { for (size_t n = 0; n <= 7; n++) cuts.insert(n); cuts.insert(6 + 12 * (unsigned char) image[5]); cuts.insert(image.size() - 1); cuts.insert(image.size() - 8); int extra = thorough ? 24 : 6; for (int k = 0; k < extra; k++) cuts.insert(rng.below(image.size())); }
   for (size_t n : cuts) {
     std::string cut = work + "/cut.yarc"; write_file(cut, image.substr(0, n));
-    std::vector<std::string> av{"yara", "-p", "1", "-C", cut, target};
+    // half of the invocations also pass -d: externals are applied to the loaded rules after the load
+    std::vector<std::string> av{"yara", "-p", "1"}; if (sim_mix64(seed * 1000003 + (uint64_t) run * 8191 + n) & 1) { for (auto& e : ext_args()) av.push_back(e); st.c["cli_load_with_externals"]++; }   /* a function of (seed, run, n): the replay makes the same choice */ av.push_back("-C"); av.push_back(cut); av.push_back(target);
     InvResult r = run_cli(false, av, rng.next(), p1, 1);
     st.runs++; st.c["faults_fired.rule_file_cut_at_byte_n"]++; st.c["cli_invocations"]++;
     Hash64 h; h.add("c17cli"); h.addu(run); h.addu(n); st.hash(h.h);
